@@ -81,9 +81,9 @@ def check_highlights(cls, v, ec, x, ranges):
     if problems:
         out.append(('escape-highlights:' + problems[0][0], '%s(%r, highlights=%r) -> %r' % (cls.__name__, x, ranges, enc)))
     esc = ec['ESCAPE']
-    base = cls(x).to_er7(ec)
-    nh = enc.count(esc + 'H' + esc) - base.count(esc + 'H' + esc)
-    nn = enc.count(esc + 'N' + esc) - base.count(esc + 'N' + esc)
+    base_toks, _ = R.tokenize_escaped(cls(x).to_er7(ec), ec, _letters_for(v, ec))
+    nh = toks.count(esc + 'H' + esc) - base_toks.count(esc + 'H' + esc)      # left-to-right tokens, not substring counts
+    nn = toks.count(esc + 'N' + esc) - base_toks.count(esc + 'N' + esc)
     if (nh, nn) != (len(ranges), len(ranges)):
         out.append(('escape-highlights:wrong-number-of-markers', '%s(%r, highlights=%r) -> %r' % (cls.__name__, x, ranges, enc)))
     return out
